@@ -7,11 +7,41 @@ from typing import Any, MutableMapping, cast
 from streamflow.core.exception import WorkflowExecutionException
 from streamflow.core.persistence import Database, DatabaseLoadingContext
 from streamflow.core.utils import get_entity_ids, get_tag
-from streamflow.core.workflow import Token
+from streamflow.core.workflow import Command, CommandOutput, Status, Token
 from streamflow.workflow.step import ConditionalStep, Transformer
 from streamflow.workflow.token import ListToken
 
+import asyncio
+import random
+
 from sfv.rt.wfgen import apply_fn, deep_map, pred_holds
+
+# per-run PRNG for the duration of jobs (set by wfgen.run_spec from the schedule seed): jobs complete in an order that
+# is part of the schedule — C05 quantifies over "every order in which jobs complete"
+JOB_RNG = random.Random(0)
+JOB_JITTER = 0.004
+
+
+class GenCommand(Command):
+    """the command of the generated job pipelines: lin(inputs) + k after a PRNG-chosen (schedule dependent) duration"""
+
+    def __init__(self, step, k=0, nin=1, fail_tag=None):
+        super().__init__(step)
+        self.k, self.nin, self.fail_tag = k, nin, fail_tag
+
+    @classmethod
+    async def _load(cls, row, loading_context, step):
+        return cls(step=step, k=row["k"], nin=row["nin"], fail_tag=row.get("fail_tag"))
+
+    async def _save_additional_params(self, database):
+        return {"k": self.k, "nin": self.nin, "fail_tag": self.fail_tag}
+
+    async def execute(self, job):
+        await asyncio.sleep(JOB_RNG.random() * JOB_JITTER)
+        if self.fail_tag is not None and get_tag(job.inputs.values()) == self.fail_tag:
+            return CommandOutput("injected job failure", Status.FAILED)
+        vals = [job.inputs[f"i{j}"].value for j in range(self.nin)]
+        return CommandOutput(apply_fn("lin", self.k, vals)[0], Status.COMPLETED)
 
 
 def mktoken(v, tag):
